@@ -381,13 +381,16 @@ static int pairs(char db, int zi, int zj) {
   }
   // q(zoneA); q(zoneB); q(zoneA) on one shared processor
   if (zj >= 0) {
-    for (int y1 = 1999; y1 <= 2050; y1 += 3) for (int k1 = 0; k1 < 5; k1++) for (int k2 = 0; k2 < 5; k2++) {
+    // every ordered pair of years (the year the processor holds for A when it is re-bound x the year of the first query
+    // for B); all 25 kind pairs when the years are equal, 9 otherwise
+    for (int y1 : years) for (int y2 : years) for (int k1 = 0; k1 < 5; k1++) for (int k2 = 0; k2 < 5; k2++) {
+      if (y1 != y2 && (k1 == 1 || k1 == 4 || k2 == 1 || k2 == 4)) continue;
       reset_all();
       handle(std::string("PROC ") + db);
       char b[64];
       snprintf(b, sizeof(b), "TZ 0 %d", zi); handle(b);
       snprintf(b, sizeof(b), "TZ 0 %d", zj); handle(b);
-      std::string a1 = mkarg(k1, y1), a2 = mkarg(k2, y1);
+      std::string a1 = mkarg(k1, y1), a2 = mkarg(k2, y2);
       handle("Q 0 " + a1);
       std::string gotB = handle("Q 1 " + a2), wantB = handle("F 1 " + a2);
       std::string gotA = handle("Q 0 " + a2), wantA = handle("F 0 " + a2);
